@@ -1801,6 +1801,99 @@ VH_TARGET(log_threads, 10,
 // Fixed witness of open finding F5 (independent of the generators, so decoder changes cannot
 // invalidate it): one batch processor, EmitLogRecord(severity, string body, string attribute), the
 // caller's storage is scribbled and freed when Emit returns, then the provider is flushed.
+// ================================================================================================
+// "... the instrumentation scope ... holding the values given at emit time regardless of what the caller does after
+// Emit returns" - what the caller does here is RELEASE ITS LOGGER HANDLE and ask the provider for other loggers
+// while the record still waits in a batch processor's queue.  Bodies are int64 and the only attribute is the int64
+// marker (no caller-owned storage is involved: independent of the open finding F5).  (Seeded C13-m12: GetLogger
+// dropped loggers nobody else referenced; the queued record kept a pointer to the dead logger's scope.)
+VH_TARGET(logger_lifetime, 4,
+          "a batch processor that exports nothing before the final ForceFlush (optionally next to a simple one); 1..6 "
+          "emits, each through a logger obtained for a generated scope; after an emit the handle is kept or released and "
+          "0..2 further loggers (known or new scopes) are requested; non-trivial when a handle was released before the "
+          "flush and a logger for a NEW scope was requested afterwards; distinct = distinct program text")
+{
+  vh::Reader &rd = c.rd;
+  auto bsink = std::make_shared<Sink>();
+  auto ssink = std::make_shared<Sink>();
+  const bool with_simple = rd.coin();
+  sdkl::BatchLogRecordProcessorOptions o;
+  o.schedule_delay_millis = std::chrono::milliseconds(1000);  // (almost) nothing leaves the queue before ForceFlush
+  o.max_queue_size        = 64;
+  o.max_export_batch_size = 64;
+  std::vector<std::unique_ptr<sdkl::LogRecordProcessor>> procs;
+  procs.emplace_back(new sdkl::BatchLogRecordProcessor(
+      std::unique_ptr<sdkl::LogRecordExporter>(new CaptureExporter(bsink)), o));
+  if (with_simple)
+    procs.emplace_back(
+        new sdkl::SimpleLogRecordProcessor(std::unique_ptr<sdkl::LogRecordExporter>(new CaptureExporter(ssink))));
+  auto provider = std::make_shared<sdkl::LoggerProvider>(std::move(procs));
+  struct Emit
+  {
+    std::string name, version, schema;
+  };
+  std::vector<Emit> emits;
+  std::vector<otel::nostd::shared_ptr<lg::Logger>> kept;
+  unsigned n = 1 + rd.below(6), fresh = 0;
+  bool released_then_new = false;
+  std::string text = with_simple ? "batch+simple:" : "batch:";
+  for (unsigned i = 0; i < n; ++i)
+  {
+    Emit e;
+    unsigned scope = rd.below(4);  // a small pool: the same scope comes back
+    e.name         = "lib" + std::to_string(scope);
+    e.version      = scope & 1 ? "1." + std::to_string(scope) : "";
+    e.schema       = scope & 2 ? "https://schema/" + std::to_string(scope) : "";
+    bool release   = rd.chance(60);
+    {
+      auto logger = provider->GetLogger("logger" + std::to_string(scope), e.name, e.version, e.schema);
+      VH_CHECK(c, logger.get() != nullptr, "GetLogger returned null");
+      logger->EmitLogRecord(lg::Severity::kInfo, static_cast<int64_t>(1000 + i),
+                            otel::common::MakeAttributes({{"vh.marker", static_cast<int64_t>(i)}}));
+      if (!release)
+        kept.push_back(logger);
+    }
+    text += " emit#" + std::to_string(i) + "(" + e.name + "/" + e.version + "/" + e.schema + (release ? ",released" : ",kept") + ")";
+    emits.push_back(e);
+    unsigned more = rd.below(3);
+    for (unsigned k = 0; k < more; ++k)
+    {
+      bool new_scope = rd.coin();
+      std::string nm = new_scope ? "fresh" + std::to_string(fresh++) : "lib" + std::to_string(rd.below(4));
+      auto other     = provider->GetLogger("other-" + nm, nm, "", "");
+      text += std::string(" GetLogger(") + nm + ")";
+      if (new_scope && release)
+        released_then_new = true;
+      if (rd.coin())
+        kept.push_back(other);
+    }
+  }
+  c.note(text + " ForceFlush\n");
+  c.nontrivial = released_then_new;
+  if (released_then_new)
+    c.tag("handle-released-then-new-scope-requested");
+  VH_CHECK(c, provider->ForceFlush(), "ForceFlush returned false");
+  auto check_sink = [&](Sink &sink, const char *who) {
+    std::lock_guard<std::mutex> g(sink.mu);
+    VH_CHECK(c, sink.records.size() == emits.size(), who << ": " << sink.records.size() << " records exported, "
+                                                          << emits.size() << " emitted");
+    for (auto &r : sink.records)
+    {
+      VH_CHECK(c, r.marker >= 0 && static_cast<size_t>(r.marker) < emits.size(), who << ": a record without its marker");
+      const Emit &e = emits[static_cast<size_t>(r.marker)];
+      VH_CHECK(c, r.scope_name == e.name && r.scope_version == e.version && r.scope_schema == e.schema,
+               who << ": emit #" << r.marker << " carries the scope '" << vh::show(r.scope_name) << "/"
+                   << vh::show(r.scope_version) << "/" << vh::show(r.scope_schema) << "', it was emitted through a logger of '"
+                   << e.name << "/" << e.version << "/" << e.schema << "'");
+    }
+  };
+  check_sink(*bsink, "batch processor");
+  if (with_simple)
+    check_sink(*ssink, "simple processor");
+  kept.clear();
+  provider.reset();
+}
+
 VH_TARGET(f5_witness, 1, "fixed witness case of known finding F5 (not part of the search)")
 {
   c.note("batch processor; EmitLogRecord(kInfo, 'body-string', {k='attr-string'}); storage freed after Emit; ForceFlush\n");
